@@ -17,7 +17,8 @@ func init() {
 		Level: "exploration",
 		Rule: "standard audio rates 8 kHz..5.6448 MHz, seeded integer rates in 1..10^6 and fractional rates x event counts (dense from 0, dense below f*86400, and 'tie hunters': counts whose exact duration has a fractional part closest to 1/2, found by integer modular search, also shifted by multiples of f) and durations up to 24 h; " +
 			"each result compared with the exact rational (big.Rat on the float64's exact value) within 0.5 + 3*2^-53*|exact|; monotonicity on sorted arguments; Events(Duration(n))=n for rates <= 1 MHz and spans <= 24 h; " +
-			"distinct = distinct (rate, direction, argument) tuples; non-trivial = exact result has a non-zero fractional part (rounding is actually exercised)",
+			"distinct = distinct (rate, direction, argument) tuples; non-trivial = exact result has a non-zero fractional part (rounding is actually exercised); " +
+			"also: round rates (powers of two up to 2^22 and neighbours, powers of ten, multiples of 44100 and 48000)",
 		Assume: []string{"the error allowance 0.5 + 3*2^-53*|exact| is derived from the two float64 roundings in the implementation's formula", "results at exact .5 ties may round either way"},
 		Plan:   func(tier string) []Batch { return split("rates", 8, 900) },
 		Run:    runC17,
